@@ -16,8 +16,7 @@ Every public constructor is a function into `Except Err Term`:
   order, same association order, same recursion scheme).
 
 What is *not* modelled: the memoisation tables and symbol table (C04: `Impl.Manager`),
-gmpy2 code paths, the string forms of `Real`, negative rotation steps (accepted by pySMT,
-finding F06; no payload for them in `Core.Term`), and non-integer exponents of `Pow`
+gmpy2 code paths, the string forms of `Real`, and non-integer exponents of `Pow`
 (`Err.unmodelled`).
 
 Python-level argument values (`int`, `bool`, `Fraction`, `None`, `slice`, `str`) are
@@ -108,9 +107,10 @@ def IntC (n : Int) : Term := Term.int n
 def RealC (q : Rat) : Term := Term.real q
 def StringC (s : String) : Term := Term.str s
 
-/-- `BV(value, width)` for an integer value (formula.py:638-655) -/
+/-- `BV(value, width)` for an integer value (formula.py:635-658; a width below one is refused) -/
 def BV (value : Int) (width : Nat) : R :=
-  if value < 0 then .error .value
+  if width = 0 then .error .value
+  else if value < 0 then .error .value
   else if value ≥ (2 : Int) ^ width then .error .value
   else .ok (Term.bvc value.toNat width)
 
@@ -408,7 +408,7 @@ def BVAShr (l : Term) (r : Arg) : R := do bvBin .bvAshr l (← shiftAmount l r f
 
 def rotate (op : Op) (f : Term) (steps : Int) : R := do
   let w ← bvWidth f
-  if steps < 0 then .error .unmodelled        -- pySMT accepts negative steps (finding F06)
+  if steps < 0 then .error .type              -- refused by the type checker
   else create op [f] (.ints [w, steps.toNat])
 
 def BVRol (f : Term) (steps : Int) : R := rotate .bvRol f steps
@@ -579,12 +579,13 @@ def call (name : String) (args : List Arg) : R :=
       | [.i n] => .ok (RealC n) | [.q v] => .ok (RealC v) | [_] => .error .type | _ => .error .unmodelled)
   | "String" => (match args with | [.s v] => .ok (StringC v) | _ => .error .unmodelled)
   | "BV" => (match args with
-      | [.i n, .i w] => if w < 0 then .error .unmodelled else BV n w.toNat
+      | [.i n, .i w] => if w ≤ 0 then .error .value else BV n w.toNat
+      | [.b _, .i w] => if w ≤ 0 then .error .value else .error .type
+      | [.q _, .i w] => if w ≤ 0 then .error .value else .error .type
       | [.s v] => BVStr v
       | [.s v, .none] => BVStr v
       | [.s v, .i w] => if w < 0 then .error .unmodelled else BVStr v (some w.toNat)
       | [.i _] => .error .value | [.i _, .none] => .error .value
-      | [.b _, .i _] => .error .type | [.q _, .i _] => .error .type
       | _ => .error .unmodelled)
   | "SBV" => (match args with
       | [.i n, .i w] => if w < 0 then .error .unmodelled else SBV n w.toNat
@@ -593,8 +594,8 @@ def call (name : String) (args : List Arg) : R :=
       | [.s v, .none] => BVStr v
       | [.s v, .i w] => if w < 0 then .error .unmodelled else BVStr v (some w.toNat)
       | _ => .error .unmodelled)
-  | "BVOne" => (match args with | [.i w] => if w < 0 then .error .unmodelled else BVOne w.toNat | _ => .error .unmodelled)
-  | "BVZero" => (match args with | [.i w] => if w < 0 then .error .unmodelled else BVZero w.toNat | _ => .error .unmodelled)
+  | "BVOne" => (match args with | [.i w] => if w ≤ 0 then .error .value else BVOne w.toNat | _ => .error .unmodelled)
+  | "BVZero" => (match args with | [.i w] => if w ≤ 0 then .error .value else BVZero w.toNat | _ => .error .unmodelled)
   | "BVNot" => un BVNot | "BVNeg" => un BVNeg
   | "BVAnd" => nary BVAnd | "BVOr" => nary BVOr | "BVAdd" => nary BVAdd | "BVMul" => nary BVMul
   | "BVConcat" => nary BVConcat
